@@ -258,9 +258,16 @@ def strip_templates(s):
 FRAME = re.compile(r"#\d+ 0x[0-9a-f]+ in (.+?) (/\S+?):(\d+)")
 
 
-def tapkee_site(stderr):
-    """first stack frame inside the library: `file:function` (templates and arguments stripped)"""
-    for fm in FRAME.finditer(stderr):
+def tapkee_site(stderr, outermost_routine=False):
+    """first stack frame inside the library: `file:function` (templates and arguments stripped).
+    outermost_routine: the LAST frame below methods/*.hpp instead (for a timeout the innermost frame is wherever the
+    timer happened to fire inside the loop; the routine that contains the loop is stable)"""
+    frames = list(FRAME.finditer(stderr))
+    if outermost_routine:
+        inner = [fm for fm in frames if "/include/tapkee/" in fm.group(2) and "/include/tapkee/methods" not in fm.group(2)
+                 and not fm.group(2).endswith(("/embed.hpp", "/chain_interface.hpp"))]
+        frames = inner[-1:] if inner else frames
+    for fm in frames:
         path = fm.group(2)
         if "/include/tapkee/" in path or "/include/stichwort/" in path:
             fn = strip_templates(re.sub(r"\[with .*", "", fm.group(1)))
@@ -275,10 +282,11 @@ def tapkee_site(stderr):
 
 def abort_summary(rc, stderr):
     """canonical observation for a case that ended the process without an answer"""
+    if "VERIF-TIMEOUT" in stderr or rc == -999:
+        site = tapkee_site(stderr, outermost_routine=True)
+        return "timeout" + (("@" + site) if site else "")
     site = tapkee_site(stderr)
     at = ("@" + site) if site else ""
-    if "VERIF-TIMEOUT" in stderr or rc == -999:
-        return "timeout" + at
     m = re.search(r"ERROR: AddressSanitizer: ([\w-]+)", stderr)
     if m:
         return "abort:asan:" + m.group(1) + at
@@ -618,9 +626,16 @@ def correspond(ctx):
     A, B = "asan", "asan+eigen-assert"
     r = ctx.rng
     if getattr(ctx, "replay", None):
-        c = parse_line(ctx.replay["case"])
         ctx.tier = "replay"
-        judge(ctx, [(A, a, [dict(c)]), (B, b, [dict(c)])], "replay")
+        line = ctx.replay.get("case")
+        if line and str(line).startswith("sweep "):
+            c = parse_line(line)
+            c.pop("id", None)
+            judge(ctx, [(A, a, [dict(c)]), (B, b, [dict(c)])], "replay")
+        else:
+            # a broken obligation / translator tie without failing input: the Lean build above is the replay;
+            # the witnesses show whether the real code still behaves
+            judge(ctx, [(A, a, [dict(w) for w in WITNESSES]), (B, b, [dict(w) for w in WITNESSES])], "replay(witnesses)")
         report_failures(ctx)
         return
     # Lean witnesses + corpus first, on both builds
